@@ -34,6 +34,12 @@ m = dict(
     engines=[
         dict(name="rapidcheck", path="/verif/harness/common.hpp", serves_properties=[p for p in ALL if p in PROPS],
              kind_free_text="property-based testing: rapidcheck generators + shrinking, one harness binary per property, driven by check.py with derived seeds"),
+        dict(name="libFuzzer", path="/verif/harness/fuzz_targets.cpp", serves_properties=["C10", "C11", "C03"],
+             kind_free_text="coverage-guided fuzzing (clang -fsanitize=fuzzer,address,undefined) of five structure-aware targets in plain / USINGZ / large-magnitude builds, run by fuzz.py in fork mode; oracles for Execute success (C11) and structural validity (C03) sit inside the targets; registered under C10"),
+        dict(name="allocation-failure injector", path="/verif/harness/prop_C10.cpp", serves_properties=["C10"],
+             kind_free_text="replaced global operator new family with a countdown: every allocation point of each generated operation is failed once (fault enumeration)"),
+        dict(name="ThreadSanitizer workloads", path="/verif/harness/prop_C14.cpp", serves_properties=["C14"],
+             kind_free_text="rapidcheck-generated multi-threaded workloads built with clang -fsanitize=thread"),
     ],
     checks=checks,
     not_applicable=[dict(property_id=p, reason=NOT_YET.get(p, "check not built yet in this revision")) for p in ALL if p not in PROPS],
